@@ -186,3 +186,82 @@ def sysreg_generic_name(v):
 
 def double_bits(x):
     return struct.unpack("<Q", struct.pack("<d", x))[0]
+
+
+# -- AdvSIMD modified immediates (AdvSIMDExpandImm, Arm ARM shared/functions/vector) ---------
+
+def replicate(value, esize, total=64):
+    value &= (1 << esize) - 1
+    out = 0
+    for i in range(total // esize):
+        out |= value << (i * esize)
+    return out
+
+
+def advsimd_expand_imm(op, cmode, imm8):
+    """-> the 64-bit pattern (one 64-bit lane) denoted by op:cmode:imm8, or None for the reserved combinations. The
+    floating point forms (cmode 1111) are expanded too so that a wrongly chosen class is seen as a wrong value."""
+    imm8 &= 0xFF
+    c = (cmode >> 1) & 7
+    if c in (0, 1, 2, 3):
+        return replicate(imm8 << (8 * c), 32)
+    if c in (4, 5):
+        return replicate(imm8 << (8 * (c - 4)), 16)
+    if c == 6:
+        if cmode & 1:
+            return replicate((imm8 << 16) | 0xFFFF, 32)
+        return replicate((imm8 << 8) | 0xFF, 32)
+    # c == 7
+    if (cmode & 1) == 0 and op == 0:
+        return replicate(imm8, 8)
+    if (cmode & 1) == 0 and op == 1:
+        out = 0
+        for i in range(8):
+            if (imm8 >> i) & 1:
+                out |= 0xFF << (8 * i)
+        return out
+    if op == 0:
+        a, b = (imm8 >> 7) & 1, (imm8 >> 6) & 1
+        imm32 = (a << 31) | ((b ^ 1) << 30) | ((0x1F if b else 0) << 25) | ((imm8 & 0x3F) << 19)
+        return replicate(imm32, 32)
+    a, b = (imm8 >> 7) & 1, (imm8 >> 6) & 1
+    return (a << 63) | ((b ^ 1) << 62) | ((0xFF if b else 0) << 54) | ((imm8 & 0x3F) << 48)
+
+
+def modimm_class(op, cmode):
+    """which instruction an (op, cmode) pair belongs to: movi / mvni / orr / bic / fmov"""
+    if cmode == 15:
+        return "fmov"
+    if cmode == 14:
+        return "movi"          # 8-bit (op=0) and 64-bit byte mask (op=1) are both MOVI
+    if cmode >= 12:
+        return "mvni" if op else "movi"
+    if cmode & 1:
+        return "bic" if op else "orr"
+    return "mvni" if op else "movi"
+
+
+def modimm_result(op, cmode, imm8):
+    """the 64-bit lane MOVI / MVNI write (MVNI writes the complement of the expanded immediate); for ORR / BIC / FMOV the
+    expanded immediate itself"""
+    x = advsimd_expand_imm(op, cmode, imm8)
+    if x is not None and modimm_class(op, cmode) == "mvni":
+        x ^= (1 << 64) - 1
+    return x
+
+
+_MOVABLE = None
+
+
+def modimm_movable():
+    """every 64-bit lane pattern some MOVI / MVNI encoding produces -> list of (op, cmode, imm8)"""
+    global _MOVABLE
+    if _MOVABLE is None:
+        _MOVABLE = {}
+        for op in (0, 1):
+            for cmode in range(15):
+                if modimm_class(op, cmode) not in ("movi", "mvni"):
+                    continue
+                for imm8 in range(256):
+                    _MOVABLE.setdefault(modimm_result(op, cmode, imm8), []).append((op, cmode, imm8))
+    return _MOVABLE
